@@ -519,7 +519,14 @@ def r123(ctx, m, cname, f, info):
         if isinstance(inner_loop, ast.For):
             it = inner_loop.iter
             qnames = {path_of(p.func.value) for p in pops}
-            bound_names = {path_of(a) for c in ast.walk(it) if isinstance(c, ast.Call) and dotted(c.func) == "len" for a in c.args}
+            # the bound may be held in a local:  frames_ready = min(len(a), len(b)); for _ in range(frames_ready)
+            from ..flow import deref as _deref
+            it_exprs = [it]
+            for nm_ in [x for x in ast.walk(it) if isinstance(x, ast.Name)]:
+                e2_, _ = _deref(fl, nm_, cfg.node_of(inner_loop))
+                if e2_ is not nm_:
+                    it_exprs.append(e2_)
+            bound_names = {path_of(a) for it_ in it_exprs for c in ast.walk(it_) if isinstance(c, ast.Call) and dotted(c.func) == "len" for a in c.args}
             if len(qnames) > 1 and not qnames <= bound_names:
                 # allowed when all queues are extended from one reader result in lock step
                 ext = {}
